@@ -90,6 +90,48 @@ def _get_func_name_start_end(
     raise RuntimeError(f"Cannot find {node.name} in code block:\n{codeblock}")
 
 
+def _iter_identifier_mentions(root: ast.AST) -> Iterable[Tuple[ast.AST, str]]:
+    """Iterate over every place where an identifier is written, as (node, identifier).
+
+    Function and class definitions that are members of a class are not included: their names
+    are only reachable as attributes, and attributes are included."""
+    class_members = set()
+    for classdef in core.walk(root, ast.ClassDef):
+        children = list(classdef.body)
+        while children:
+            child = children.pop()
+            if isinstance(child, (ast.FunctionDef, ast.AsyncFunctionDef, ast.ClassDef)):
+                class_members.add(child)
+            else:
+                children.extend(ast.iter_child_nodes(child))
+
+    for node in ast.walk(root):
+        if isinstance(node, ast.Name):
+            yield node, node.id
+        elif isinstance(node, (ast.FunctionDef, ast.AsyncFunctionDef, ast.ClassDef)):
+            if node not in class_members:
+                yield node, node.name
+        elif isinstance(node, ast.arg):
+            yield node, node.arg
+        elif isinstance(node, ast.Attribute):
+            yield node, node.attr
+        elif isinstance(node, ast.keyword):
+            if node.arg is not None:
+                yield node, node.arg
+        elif isinstance(node, (ast.Global, ast.Nonlocal)):
+            for name in node.names:
+                yield node, name
+        elif isinstance(node, ast.alias):
+            name = node.name if node.asname is None else node.asname
+            yield node, name.split(".")[0]
+        elif isinstance(node, ast.MatchMapping):
+            if node.rest is not None:
+                yield node, node.rest
+        elif isinstance(getattr(node, "name", None), str):
+            # except handlers, match captures, type parameters
+            yield node, node.name
+
+
 def _fix_variable_names(
     source: str, renamings: Mapping[ast.AST, str], preserve: Collection[str] = frozenset()
 ) -> str:
@@ -502,9 +544,17 @@ def align_variable_names_with_convention(
         for node, substitutes in renamings.items()
         if len(substitutes) == 1 and blacklisted_names.isdisjoint(substitutes)
     }
+    # A name is renamed in all the places where it is written, or not at all. What those places
+    # refer to is not tracked, but if all of them change in the same way, it does not matter.
+    name_substitutes = collections.defaultdict(set)
+    for node, name in _iter_identifier_mentions(ast_tree):
+        name_substitutes[name].add(renamings.get(node, name))
+
     substitute_node_renamings = collections.defaultdict(set)
     for node, substitute in renamings.items():
-        substitute_node_renamings[substitute].add(node)
+        name = node.id if isinstance(node, ast.Name) else node.name
+        if name_substitutes[name] <= {substitute}:
+            substitute_node_renamings[substitute].add(node)
 
     transaction = 0
     for substitute, nodes in substitute_node_renamings.items():
